@@ -5,7 +5,7 @@ import TeleportModel.Driver.Loop
 Line protocol of C08 (see harness/c08_test.go). Stateless: every line is one case.
 
   v <eth|bsc> <c|a> <headRn> <headRh> <delayParam> <contract> <hRn> <hRh> <src> <dst> <seq> <value>
-    <ncons> (<rn> <rh> <root|X|Y>)*ncons <rawProofJson base64|nil|-> <tag>
+    <ncons> (<rn> <rh> <root[@irn-irh-ts]|X|Y>)*ncons <rawProofJson base64|nil|-> <tag>
     | <nil|bad|ok> [<address> <balance> <codeHash> <nonce> <storageHash> <nA> <node>*nA <nS> (null | sp <key> <value> <nP> <node>*nP)*nS]
     M <nm> (<root> <key> <E|A|value>)*nm
       -> ok | rej      (rej = error return or panic; panic-freedom is C15's subject, the harness only counts panics)
@@ -45,9 +45,18 @@ def rep {α} (p : P α) : Nat → P (List α)
 def pCons : P (Height × ConsEntry) := do
   let rn ← pU64; let rh ← pU64; let t ← tok
   if t = "X" ∨ t = "Y" then pure (⟨rn, rh⟩, .corrupt) else
-  match unhex t with
-  | some r => pure (⟨rn, rh⟩, .root r)
-  | none => failure
+  -- `<root>` or `<root>@<innerRn>-<innerRh>-<timestamp>` (the state's own Height / Timestamp fields; default: the key, 1)
+  match t.splitOn "@" with
+  | [r] =>
+    match unhex r with
+    | some r => pure (⟨rn, rh⟩, .state ⟨1, ⟨rn, rh⟩, r⟩)
+    | none => failure
+  | [r, inner] =>
+    match unhex r, (inner.splitOn "-").map String.toNat? with
+    | some r, [some a, some b, some c] =>
+      if a < 2^64 ∧ b < 2^64 ∧ c < 2^64 then pure (⟨rn, rh⟩, .state ⟨UInt64.ofNat c, ⟨UInt64.ofNat a, UInt64.ofNat b⟩, r⟩) else failure
+    | _, _ => failure
+  | _ => failure
 
 def pSp : P (Option StorageResult) := do
   let t ← tok
